@@ -385,7 +385,10 @@ def c02(req, ra, ctr):
         inames = set(names_of(i, ('po', 'pk', 'ko')))
         if ra[0] == 'err':
             ctr['c02:raise'] += 1
-            if not (onames & inames) and not (set(names_of(o)) & set(names_of(i)) - {x for x in names_of(o, ('vp', 'vk'))}):
+            # "both declare a same-named parameter": any shared name except a star parameter of the same kind in both
+            # (which is the forwarding itself) -- the reading of theorem embed_raises_only_if (Props/C02.lean, sharedNamed)
+            shared = any(p[0] == q[0] and not (p[1] == q[1] and p[1] in ('vp', 'vk')) for p in o for q in i)
+            if not shared:
                 for n, K in shapes_for(ins, foreign=('zz',)):
                     if composite(o, i, uva, uvk, n, K):
                         fails.append('raise-unjustified: embed(%s, %s, %s, %s) raised but the composite accepts (%d,%s)' % (
@@ -468,6 +471,9 @@ def c08(req, ra, ctr):
         if len(set(lst)) != len(lst):
             if shared_fn and all(lst.count(f) == 1 or fns.count(f) > 1 for f in lst):
                 fails.append('dup-sources-same-callable: sources[%s] = %s (the same callable is an input twice)' % (x, lst))
+            elif op == 'merge' and len(ds) >= 3 and not role_cons([S3(d) for d in ds]):
+                fails.append('dup-sources-role-inconsistent: sources[%s] = %s for the n-ary merge of inputs using that name in '
+                             'different roles, %s' % (x, lst, engine.line(req)))
             else:
                 fails.append('dup-sources: sources[%s] = %s for %s' % (x, lst, engine.line(req)))
         for f in lst:
